@@ -20,7 +20,7 @@ PROPERTY = 'C18'
 RULE = ('random-walk measures: every connected undirected graph over weights {1,2}, {0.5,1} and the nearly decomposable {0.002,1} (n<=5) on n<=4, binary n=5, every '
         'strongly connected binary digraph n<=4 (thorough: weights {1,2} and {0.5,1,2} on n=5); pagerank additionally x d in '
         '{0.5,0.85} x falff in {None, non-uniform}; spectral measures and findwalks: every undirected graph n<=6 (findwalks also '
-        'every digraph n<=4) plus C8, K4,4, Petersen, 2xK4, 3-cube, K3,3+isolated and the structured 7-10 node family of bctmc/named.py; non-trivial = graph with a repeated '
+        'every digraph n<=4) plus C8, K4,4, Petersen, 2xK4, 3-cube, K3,3+isolated and the structured 7-10 node family of bctmc/named.py; every network on <= 4 nodes also with self-connections; non-trivial = graph with a repeated '
         'adjacency eigenvalue (spectral) / with unequal node strengths (random walk)')
 ASSUMPTIONS = ['numpy/scipy linear algebra as reference (expm, matrix_power, eigvalsh); residual tolerance 1e-8',
                'mean first passage time is judged off the diagonal (the routine reports 0 on the diagonal)',
@@ -197,6 +197,12 @@ def work(unit):
                 t.c['nontrivial'] += 1
                 if idx % 71 == 3:
                     t.sample(case, order=-n * 10 ** 7 + idx)
+            if n <= 4:
+                # the same network with self-connections (a walker may stay where it is)
+                Ad = A.copy()
+                np.fill_diagonal(Ad, [1.0, 0.0, 2.0, 0.5][:n])
+                t.c['graphs'] += 1
+                check_rw(t, Ad, dict(case, A=Ad, variant='self_connections'), directed)
     elif kind == 'sp':
         n = SP[name]
         for idx in range(a, b):
@@ -209,6 +215,12 @@ def work(unit):
                     t.sample(case, order=-n * 10 ** 7 + idx)
             if n <= 5:
                 check_findwalks(t, A, case)
+            if n <= 4:
+                Ad = A.copy()
+                np.fill_diagonal(Ad, [1.0, 0.0, 1.0, 1.0][:n])
+                cd = dict(case, A=Ad, variant='self_connections')
+                check_spectral(t, Ad, cd)
+                check_findwalks(t, Ad, cd)
     elif kind == 'fw_dir':
         for idx in range(a, b):
             A = ss.dir_graph(name, (0, 1), idx)
